@@ -494,3 +494,30 @@ def run(F, R):
         else:
             R.check(consumed == 4, "R13.10", "string_value:u-escape-consumes-4", b.where(), "4 characters consumed",
                     "the `u` arm consumes %d characters instead of 4: the text after a unicode escape is corrupted (u0041 followed by BC decodes to AC)" % consumed)
+
+    # ---------------------------------------------------------------- R13.11
+    R.rule("R13.11", "a schema extension need not name the query root: in parse_schema_definition the MissingQueryRoot error is guarded by the `extend` flag "
+                     "(`extend schema @link(..)` and `extend schema { mutation: M }` are valid type-system documents)")
+    psd = F.one(r"^async_graphql_parser::parse::service::parse_schema_definition$", kind="fn")
+    mq = [a for a in find_aggs(psd, r"async_graphql_parser::Error$") if a[1][3] == "MissingQueryRoot"]
+    if not mq:
+        mq = [(bb, None, st[2]) for bb, st in psd.all_stmts() if "MissingQueryRoot" in str(st[1])]
+    R.floor("R13.11", "MissingQueryRoot construction sites", len(mq), 1)
+    ext_locals = set(psd.var_local("extend"))
+    for (ebb, r_, line) in mq[:1]:
+        guarded = False
+        for sbb, t in psd.switches():
+            if t[1][0] in ("c", "m") and psd.dominates(sbb, ebb):
+                root = t[1][1][0]
+                srcs = {root}
+                for _bb, st in psd.defs_of_local(root):
+                    if st[1][0] in ("use", "un") :
+                        op_ = st[1][1] if st[1][0] == "use" else st[1][2]
+                        if op_[0] in ("c", "m"):
+                            srcs.add(op_[1][0])
+                if srcs & ext_locals:
+                    succs = [x for x in psd.succ(sbb) if not psd.is_unreachable_block(x)]
+                    if not all(ebb in psd.reachable(x, avoid=[sbb]) or x == ebb for x in succs):
+                        guarded = True
+        R.check(guarded and bool(ext_locals), "R13.11", "parse_schema_definition:missing-query-only-for-definitions", "%s:%s" % (psd.file, line), "guarded by `extend`",
+                "MissingQueryRoot is raised without consulting `extend`: a schema extension that does not repeat the query root is rejected although it is valid")
